@@ -1130,21 +1130,33 @@ fn c11(ctx: &Ctx, rep: &mut Report) {
             let domain_ok = in_domain_state(state) || (no_chains && matches!(op, Op::Chmod(..) | Op::ChmodB(..)));
             if si % 5 == 0 && domain_ok && !through_link(state, model.abs(op.paths()[0]).and_then(|x| x.ok()).as_deref()) {
                 if let Expect::Outcomes(outs) = model.step(op) {
-                    if let Some((r, pre_d, post_d)) = stdfs_step(&sroot, state, op) {
+                    // every second of these states gets mixed owners on disk before a chown (5:0, 0:6, 5:6 by position):
+                    // some entries then already have one or both of the requested ids, others neither
+                    let mixed = si % 10 == 5 && matches!(op, Op::Chown(..) | Op::ChownB(..));
+                    let keys: Vec<String> = state.nodes.keys().filter(|k| *k != "/").cloned().collect();
+                    let prep = |r: &str| {
+                        for (i, k) in keys.iter().enumerate() {
+                            let (u, g) = [(5u32, 0u32), (0, 6), (5, 6), (0, 0)][i % 4];
+                            let _ = std::os::unix::fs::lchown(format!("{}{}", r, k), Some(u), Some(g));
+                        }
+                    };
+                    if let Some((r, pre_d, post_d)) = stdfs_step_prep(&sroot, state, op, if mixed { Some(&prep) } else { None }) {
                         rep.eval();
                         let cls = arg_classes(state, &model, op);
-                        rep.key_str(&format!("stdfs|{}|{}|{}", op.name(), cls, r.class()));
+                        if mixed {
+                            rep.count("real_chowns_on_states_with_mixed_owners", 1);
+                        }
+                        rep.key_str(&format!("stdfs|{}|{}|{}{}", op.name(), cls, r.class(), if mixed { "|mixed-owners" } else { "" }));
                         // compare the change of permission bits / owners entry by entry with the reference's change
                         let o = &outs[0];
                         let mut diffs = vec![];
                         for (k, n) in &post_d.nodes {
                             let (p0, r0, r1) = (pre_d.nodes.get(k), state.nodes.get(k), o.post.nodes.get(k));
                             if let (Some(p0), Some(r0), Some(r1)) = (p0, r0, r1) {
-                                if matches!(n.kind, NKind::Link { .. }) {
-                                    continue; // a link has no permission bits of its own on Linux
-                                }
+                                // (a link has no permission bits of its own on Linux - but it has an owner)
+                                let is_link = matches!(n.kind, NKind::Link { .. });
                                 let want_mode = if r1.mode != r0.mode { r1.mode & 0o7777 } else { p0.mode & 0o7777 };
-                                if n.mode & 0o7777 != want_mode {
+                                if !is_link && n.mode & 0o7777 != want_mode {
                                     diffs.push(format!("{} mode {:o} expected {:o}", k, n.mode & 0o7777, want_mode));
                                 }
                                 if matches!(op, Op::Chown(..) | Op::ChownB(..)) {
